@@ -252,14 +252,13 @@ def reset(env, cfg, rows):
 
 
 def done_vec(td) -> torch.Tensor:
+    """Per-row done flag as a [B] bool vector.  MCP/FLP with a [B,1] quota broadcast `done` to [B,B]
+    (row i's own flag is on the diagonal; after rows were dropped or replicated the matrix is no longer
+    square and, quotas being uniform per batch, any column serves)."""
     d = td["done"]
-    while d.dim() > 1:
-        # MCP/FLP with [B,1] quota broadcast to [B,B]: row i's own flag is on the diagonal
-        if d.dim() == 2 and d.shape[0] == d.shape[1] and d.shape[1] != 1:
-            d = d.diagonal()
-        else:
-            d = d.squeeze(-1)
-    return d.bool()
+    if d.dim() == 2 and d.shape[1] != 1:
+        d = d.diagonal() if d.shape[0] == d.shape[1] else d[:, 0]
+    return d.reshape(d.shape[0], -1)[:, 0].bool()
 
 
 def step(env, td, actions: torch.Tensor):
